@@ -33,7 +33,51 @@ def check_case(case):
         return _check_inproc(case['world'], case['opts'], case.get('list_j'))
     if kind == 'modes':
         return _check_modes(case['world'], case['opts'])
+    if kind == 'alias':
+        return _check_alias(case)
     raise ValueError(kind)
+
+
+def _check_alias(case):
+    """two registered layer names that denote ONE layer object (a dotted-name alias given as a string): every selected
+    test must still run / be listed exactly once (defect repaired by the fix recorded in known_findings.json)"""
+    import io
+    import os
+    import shutil
+    import sys
+    import tempfile
+    from contextlib import redirect_stdout, redirect_stderr
+    import zope.testrunner
+    d = tempfile.mkdtemp(prefix='c03alias')
+    pkg = 'c03alias_%d' % (abs(hash(d)) % 100000)
+    try:
+        os.mkdir(os.path.join(d, pkg))
+        w = lambda n, t: open(os.path.join(d, pkg, n), 'w').write(t)
+        w('__init__.py', '')
+        w('layers.py', 'class L:\n    @classmethod\n    def setUp(cls): pass\n    @classmethod\n    def tearDown(cls): pass\n')
+        w('alias.py', 'from %s.layers import L as L2\n' % pkg)
+        w('tests.py', 'import unittest\nfrom %s.layers import L\nRAN = []\n'
+          'class A(unittest.TestCase):\n    layer = L\n    def test_a(self): RAN.append("a")\n'
+          'class B(unittest.TestCase):\n    layer = %r\n    def test_b(self): RAN.append("b")\n'
+          'def test_suite():\n    l = unittest.defaultTestLoader.loadTestsFromTestCase\n'
+          '    return unittest.TestSuite([l(A), l(B)] if %r else [l(B), l(A)])\n'
+          % (pkg, pkg + '.alias.L2', bool(case.get('a_first', True))))
+        out = io.StringIO()
+        args = ['run'] + (['--list-tests'] if case.get('list') else [])
+        with redirect_stdout(out), redirect_stderr(out):
+            zope.testrunner.run_internal(['--path', d, '--tests-pattern', '^tests$'], args)
+        text = out.getvalue()
+        if case.get('list'):
+            got = sorted(x for x in ('a', 'b') if 'test_%s ' % x in text)
+        else:
+            got = sorted(sys.modules[pkg + '.tests'].RAN)
+        if got != ['a', 'b']:
+            return [('selection:two-names-one-layer-object:tests-lost', 'ran/listed %s, expected both' % got)]
+        return []
+    finally:
+        for m in [m for m in sys.modules if m == pkg or m.startswith(pkg + '.')]:
+            del sys.modules[m]
+        shutil.rmtree(d, ignore_errors=True)
 
 
 def _analyse(mode, world, opts, events, real, v):
@@ -297,6 +341,10 @@ def run(budget_s, seed, tier):
         col.feed(case, check_case)
         if i == 1:
             col.sample(case)
+    for a_first in (True, False):
+        for lst in (False, True):
+            col.feed({'kind': 'alias', 'a_first': a_first, 'list': lst, 'world': {'layers': [], 'modules': []}, 'opts': {}},
+                     check_case)
     # 2. exhaustive option grid on a fixed world, in-process
     exhaustive = True
     for i, case in enumerate(_gen_exhaustive()):
